@@ -5,6 +5,8 @@ Specs:    specs/ThreadCalls.tla      Abs layer = the property (Issue / Run guard
           specs/ThreadCallsImpl.tla  the algorithm as coded (threadCallQueue, snapshot drain, self-pipe waker,
                                      Check / Block / Wake); TLC: safety, refinement of Abs, liveness Issue ~> Ran
                                      under fairness of the reactor only; without wakeUp() liveness must fail
+          specs/ThreadCallsAio.tla   the asyncio reactor's algorithm (call_soon_threadsafe -> callLater(0) -> heapq), under a
+                                     strictly increasing and under a coarse clock (informational; never a verdict)
           specs/ThreadCallsTrace.tla trace validation of real reactor runs
 Binding:  harness/adapters/c13_driver.py, one subprocess per reactor run (select, poll, epoll, asyncio),
           1..16 real threads issuing callFromThread with seeded pause patterns; the trace is what the reactor
@@ -18,7 +20,7 @@ import sys
 
 META = dict(
     id="C13",
-    specs=["ThreadCalls.tla", "ThreadCallsMC.tla", "ThreadCallsImpl.tla", "ThreadCallsImplMC.tla", "ThreadCallsTrace.tla"],
+    specs=["ThreadCalls.tla", "ThreadCallsMC.tla", "ThreadCallsImpl.tla", "ThreadCallsImplMC.tla", "ThreadCallsAio.tla", "ThreadCallsAioMC.tla", "ThreadCallsTrace.tla"],
     technique="TLA+ Abs spec of callFromThread (exactly once / per-producer order / reactor thread / promptness) checked exhaustively; Impl spec of threadCallQueue + snapshot drain + self-pipe waker checked by TLC for safety, refinement of Abs and liveness (Issue ~> Ran under reactor fairness only; the model without wakeUp must violate it); TLC trace validation of genuinely concurrent runs of the real select/poll/epoll/asyncio reactors",
     level_text="TLC checks on the design that every issued call runs exactly once, in per-producer order, and is eventually run without help from unrelated events (liveness across the Check/Block window), for 1-2 producers x <=2-3 calls exhaustively; every recorded run of the four real reactors with 1..16 producer threads is validated by TLC as a behaviour of the Abs specification (all logged fields matched, no call lost, idle-issued calls within the promptness bound).",
     level_note="Trusted: TLC, CPython threads, the driver's logging (thread identity, callback arguments, monotonic clock). Real concurrency is sampled under OS scheduling, not enumerated. Promptness is a 5 s bound against 'sleeps until an unrelated event' (none exists in the runs). Not decided: behaviour at reactor shutdown, calls issued before run().",
@@ -234,6 +236,15 @@ def model_checks(ctx):
                      label="vacuity: without the producers' wakeUp() liveness must fail"), "property", "Impl without wakeUp")
     must_fail(ctx.mc("ThreadCallsImplMC", "ThreadCallsImplReach.cfg", must_pass=False,
                      label="vacuity: enqueue inside the Check/Block window reachable"), "invariant", "Impl window reachability")
+    # the asyncio reactor's own algorithm (Impl layer, informational): does it keep per-producer order?
+    aio = {}
+    for clock, cfg in (("strict", "ThreadCallsAioStrict.cfg"), ("coarse", "ThreadCallsAioCoarse.cfg")):
+        r = ctx.mc("ThreadCallsAioMC", cfg, must_pass=False, label="Impl (asyncio callFromThread), %s clock" % clock)
+        if not r.ok and r.kind != "invariant":
+            raise MachineryError("ThreadCallsAio/%s: %s\n%s" % (cfg, r.error, r.out[-1500:]))
+        aio[clock] = "per-producer order, exactly-once hold" if r.ok else "violated: " + r.error.splitlines()[0][:160]
+    ctx.extra["asyncio_algorithm_model"] = aio
+    return aio
 
 
 def report(ctx, traces, rej, cfgs):
@@ -255,7 +266,7 @@ def run(ctx):
     # real runs need no TLC: start them first, model-check meanwhile
     with ThreadPoolExecutor(1) as bg:
         fut = bg.submit(run_all, ctx, cfgs)
-        model_checks(ctx)
+        aio = model_checks(ctx) or {}
         traces = fut.result()
     order = sorted(range(len(traces)), key=lambda k: len(traces[k]["ev"]))      # small ones first (evidence samples)
     traces = [traces[k] for k in order]
@@ -275,6 +286,14 @@ def run(ctx):
     rej = ctx.validate("ThreadCallsTrace", slim, shard_size=max(1, (len(slim) + 3) // 4))
     report(ctx, traces, rej, cfgs)
     bad = {x.idx for x in rej}
+    # a counterexample of the asyncio Impl model counts only if the real reactor reproduces it (it is then reported above
+    # through trace validation); a model counterexample the code does not reproduce is model drift, not a finding
+    reproduced = any(traces[k]["cfg"]["reactor"] == "asyncio" and classify(traces[k], x.reached) == "per-thread-order"
+                     for x in rej for k in [x.idx])
+    for clock, res in aio.items():
+        if res.startswith("violated") and not reproduced:
+            ctx.impl_drift += 1
+    ctx.extra["asyncio_model_counterexample_reproduced_on_real_reactor"] = bool(reproduced)
     good = [t for k, t in enumerate(slim) if k not in bad and len(t["ev"]) <= 3000]
     ctx.selftest_rejects("ThreadCallsTrace", good * 4, mutate, n=ctx.pick(14, 40))
 
